@@ -382,6 +382,7 @@ type c04Bin struct {
 	VerifyMode string  `json:"verify_setting"` // true | false | default (key absent from the configuration)
 	Login      c04Side `json:"login_from"`
 	Earlier    *c04Side `json:"earlier_download_from,omitempty"` // the same session downloaded a file from this address a moment before
+	EarlierUsed bool    `json:"earlier_file_used,omitempty"`     // ... and opened a tunnel with that file's token from there (both tokens carry the session's one IdP access token)
 	Case       c04Case `json:"case"` // Issue = the /connect request that downloads the file
 }
 
@@ -400,6 +401,7 @@ func TestC04_BIN(t *testing.T) {
 				e.XFF = []string{rapid.SampledFrom(c04Far[:4]).Draw(t, "earlierFirst")}
 			}
 			c.Earlier = &e
+			c.EarlierUsed = rapid.Bool().Draw(t, "earlierUsed")
 		}
 		if strings.Contains(c.Case.Issue.IP, ":") || strings.Contains(c.Login.IP, ":") || strings.Contains(c.Case.Use.IP, ":") {
 			c.Case.Issue.IP, c.Login.IP, c.Case.Use.IP = "127.0.0.1", "127.0.0.2", "127.0.0.1" // the binary listens on IPv4 and IPv6; keep the HTTP client simple
@@ -422,8 +424,16 @@ func TestC04_BIN(t *testing.T) {
 		}
 		if c.Earlier != nil {
 			b.LocalIP, b.XFF = c.Earlier.IP, c.Earlier.XFF
-			if r0, err := b.get(in, "/connect"); err != nil || r0.Code != 200 {
+			r0, err := b.get(in, "/connect")
+			if err != nil || r0.Code != 200 {
 				return viol("c04/setup", "earlier download failed: %v %d", err, r0.Code)
+			}
+			if c.EarlierUsed {
+				m0, _ := parseRDP(r0.Body)
+				if tok0 := rdpString(m0, "gatewayaccesstoken"); tok0 != "" {
+					t0 := gwc.Target{Addr: gwAddrFor(in.Addr, c.Earlier.IP), LocalIP: c.Earlier.IP, Headers: c.Earlier.headers()}
+					sess.Run("ws", t0, [][]byte{tsgu.Handshake(1, 0, 0, 2), tsgu.TunnelCreate(tok0, true), tsgu.Handshake(0, 0, 0, 2)})
+				}
 			}
 		}
 		b.LocalIP, b.XFF = c.Case.Issue.IP, c.Case.Issue.XFF
